@@ -5,7 +5,8 @@ from numlib import model_view, describe  # noqa: F401  (hooks used by the runner
 
 PID = "C09"
 PROFILES = ["debug", "release"]
-ALLOWED_AXIOMS = []
+ALLOWED_AXIOMS = ["ClassicalDedekindReals.sig_not_dec", "ClassicalDedekindReals.sig_forall_dec",
+                  "FunctionalExtensionality.functional_extensionality_dep", "Classical_Prop.classic"]
 KERNEL_SAMPLE = {"quick": 300, "thorough": 2000}
 CORRESPONDENCE = ("marwood/src/number.rs PartialEq/PartialOrd (333-436) + vm/builtin/number.rs num_comp, min, max, "
                   "zero? positive? negative? + num-rational Ord::cmp vs Model/NumArith.v over Model/Ratio32.v")
@@ -31,9 +32,12 @@ MANIFEST = dict(
          "release builds, 3-way.",
     design="DESIGN.md section 5 C09",
     note="Trusted: Coq kernel, the hand-written model (tied by differential correspondence), num-bigint comparison as Z "
-         "comparison, extraction+OCaml driver (cross-checked in-kernel), Rust harness, Python oracle. Theorems over exact "
-         "operands are closed under the global context; the float-float clause uses Flocq's Bcompare_correct and therefore "
-         "the standard library's real-number axioms (listed in ALLOWED_AXIOMS when present).",
+         "comparison, extraction+OCaml driver (cross-checked in-kernel), Rust harness, Python oracle. Axioms: "
+         "Ratio32.cmp_correct is closed under the global context; theorems whose statement mentions a number.rs function "
+         "report the four standard-library axioms behind Coq's reals (ClassicalDedekindReals.sig_not_dec, sig_forall_dec, "
+         "functional_extensionality_dep, Classical_Prop.classic) because the float arms of the same functions are Flocq "
+         "operations whose validity proofs are built over R; no other axiom. OPEN (stated, oracle-checked only): the 7 "
+         "representation pairs that involve a Float.",
     technique="Rocq/Coq proof (Euclid-style induction for the continued-fraction comparison) + correspondence check")
 
 
